@@ -1,6 +1,7 @@
 import Std.Data.String.ToNat
 import Pog.Model.Fresh
 import Pog.Lemmas.Names
+import Pog.Lemmas.SanIdem
 /-
   Lemmas about the "suffix until unused" loops of `Pog.Model.Fresh` used by `Pog.Props.C20`.
 -/
@@ -137,7 +138,318 @@ theorem sufUnderscore_valid (base : Str) (k : Nat) (h : isPyIdent base = true) :
     rw [this]
     exact not_isKeyword_of_trail_digit _ _ hlast
 
-/-! ### Operation ids -/
+/-! ### Operation ids: the method names of the suffix candidates `id_1, id_2, …` are pairwise different -/
+
+theorem dropBraces_append (a b : Str) : dropBraces (a ++ b) = dropBraces a ++ dropBraces b := by
+  simp [dropBraces]
+
+theorem dropBraces_of_idChar {t : Str} (h : t.all isIdChar = true) : dropBraces t = t := by
+  unfold dropBraces
+  rw [List.filter_eq_self]
+  intro c hc
+  have h1 := List.all_eq_true.1 h c hc
+  have : c ≠ '{' ∧ c ≠ '}' := by
+    constructor <;> (intro hc; subst hc; revert h1; decide)
+  simp [this.1, this.2]
+
+theorem camelSplit1_noUpper : ∀ (t : Str) (prev : Option Char), t.all (fun c => !isUpperA c) = true →
+    camelSplit1 prev t = t := by
+  intro t
+  induction t with
+  | nil => intro _ _; rfl
+  | cons c cs ih =>
+    intro prev h
+    simp only [List.all_cons, Bool.and_eq_true, Bool.not_eq_true'] at h
+    unfold camelSplit1
+    simp only [h.1, Bool.and_false]
+    cases prev <;> simp [ih _ h.2]
+
+theorem camelSplit1_append_tail (t : Str) (ht : t.all (fun c => !isUpperA c) = true) :
+    ∀ (a : Str) (prev : Option Char), camelSplit1 prev (a ++ t) = camelSplit1 prev a ++ t := by
+  intro a
+  induction a with
+  | nil => intro prev; simp only [List.nil_append]; rw [camelSplit1_noUpper t prev ht]; rfl
+  | cons c cs ih =>
+    intro prev
+    simp only [List.cons_append, camelSplit1, ih]
+    split <;> (try split) <;> rfl
+
+theorem camelSplit2_noUpper : ∀ (t : Str) (b : Bool), t.all (fun c => !isUpperA c) = true →
+    camelSplit2 b t = t := by
+  intro t
+  induction t with
+  | nil => intro _ _; rfl
+  | cons c cs ih =>
+    intro b h
+    simp only [List.all_cons, Bool.and_eq_true, Bool.not_eq_true'] at h
+    unfold camelSplit2
+    simp only [h.1, Bool.and_false, Bool.false_and, Bool.false_eq_true, if_false]
+    rw [ih false h.2]
+
+/-- A tail that has no capital and does not start with a lower-case letter passes through `camelSplit2` untouched and does not
+    change what happens before it. -/
+theorem camelSplit2_append_tail (t : Str) (ht : t.all (fun c => !isUpperA c) = true)
+    (hh : ∀ d, t.head? = some d → isLowerA d = false) :
+    ∀ (a : Str) (b : Bool), camelSplit2 b (a ++ t) = camelSplit2 b a ++ t := by
+  intro a
+  induction a with
+  | nil => intro b; simp only [List.nil_append]; rw [camelSplit2_noUpper t b ht]; rfl
+  | cons c cs ih =>
+    intro b
+    cases cs with
+    | nil =>
+      simp only [List.cons_append, List.nil_append]
+      cases t with
+      | nil => simp
+      | cons d ds =>
+        have hl : isLowerA d = false := hh d rfl
+        have e : camelSplit2 (isUpperA c) (d :: ds) = d :: ds := camelSplit2_noUpper _ _ ht
+        rw [camelSplit2, e]
+        simp [hl, camelSplit2]
+    | cons d ds =>
+      simp only [List.cons_append] at ih ⊢
+      unfold camelSplit2
+      simp only [ih]
+      split <;> rfl
+
+theorem nonId_append (a b : Str) : nonIdToUnderscore (a ++ b) = nonIdToUnderscore a ++ nonIdToUnderscore b := by
+  simp [nonIdToUnderscore]
+
+theorem nonId_of_idChar {t : Str} (h : t.all isIdChar = true) : nonIdToUnderscore t = t := by
+  unfold nonIdToUnderscore
+  induction t with
+  | nil => rfl
+  | cons c cs ih =>
+    simp only [List.all_cons, Bool.and_eq_true] at h
+    simp [h.1, ih h.2]
+
+theorem collapse_append_of_head_ne (d : Char) (y : Str) (hd : d ≠ '_') :
+    ∀ x : Str, collapseUnderscores (x ++ d :: y) = collapseUnderscores x ++ collapseUnderscores (d :: y) := by
+  intro x
+  induction x with
+  | nil => rfl
+  | cons c cs ih =>
+    cases cs with
+    | nil =>
+      simp only [List.cons_append, List.nil_append]
+      rw [collapseUnderscores]
+      have : (d == '_') = false := by simpa using hd
+      simp [this, collapseUnderscores]
+    | cons c' rest =>
+      simp only [List.cons_append] at ih ⊢
+      rw [collapseUnderscores, collapseUnderscores, ih]
+      split <;> rfl
+
+theorem collapse_of_no_us : ∀ s : Str, s.all (fun c => c != '_') = true → collapseUnderscores s = s := by
+  intro s
+  induction s with
+  | nil => intro _; rfl
+  | cons c cs ih =>
+    intro h
+    simp only [List.all_cons, Bool.and_eq_true, bne_iff_ne, ne_eq] at h
+    cases cs with
+    | nil => rfl
+    | cons d ds =>
+      rw [collapseUnderscores]
+      have : (c == '_') = false := by simpa using h.1
+      simp only [this, Bool.false_and, Bool.false_eq_true, if_false]
+      rw [ih (by simpa using h.2)]
+
+theorem lstripC_append_of_head (ch : Char) (t : Str) (ht : t.head? ≠ some ch) :
+    ∀ p : Str, lstripC ch (p ++ t) = lstripC ch p ++ t := by
+  intro p
+  induction p with
+  | nil => exact lstripC_id_of_head ht
+  | cons c cs ih =>
+    simp only [List.cons_append, lstripC]
+    split
+    · exact ih
+    · rfl
+
+/-- What `methodCore` makes of `id_<digits>`: a prefix that depends on `id` only, followed by the digits. -/
+theorem methodCore_suffixed (id : Str) : ∃ q : Str, ∀ ds : Str, ds ≠ [] → ds.all isDigitA = true →
+    methodCore (id ++ '_' :: ds) = q ++ ds := by
+  refine ⟨(lstripC '_' (collapseUnderscores
+    (nonIdToUnderscore (camelSplit2 false (camelSplit1 none (dropBraces id))) ++ ['_']))).map lowerA, ?_⟩
+  intro ds hne hds
+  have hd : ∀ c ∈ ds, isDigitA c = true := fun c hc => List.all_eq_true.1 hds c hc
+  have hidc : ('_' :: ds).all isIdChar = true := by
+    simp only [List.all_cons, isIdChar_us, Bool.true_and, List.all_eq_true]
+    exact fun c hc => isIdChar_of_isAlnumA (isAlnumA_of_digit (hd c hc))
+  have hnu : ('_' :: ds).all (fun c => !isUpperA c) = true := by
+    simp only [List.all_cons, Bool.and_eq_true, List.all_eq_true]
+    refine ⟨by decide, fun c hc => ?_⟩
+    have := hd c hc
+    simp only [Bool.not_eq_true']
+    char_arith
+  have hnus : ds.all (fun c => c != '_') = true := by
+    rw [List.all_eq_true]
+    intro c hc
+    have := hd c hc
+    simp only [bne_iff_ne, ne_eq]
+    intro h; subst h; revert this; decide
+  have hlow : ds.all lowId = true := by
+    rw [List.all_eq_true]
+    intro c hc
+    have := hd c hc
+    unfold lowId
+    simp [this]
+  obtain ⟨d, ds', rfl⟩ := List.exists_cons_of_ne_nil hne
+  have hdne : d ≠ '_' := by
+    have := hd d (by simp)
+    intro h; subst h; revert this; decide
+  rw [methodCore_eq]
+  unfold methodPre
+  rw [dropBraces_append, dropBraces_of_idChar hidc, camelSplit1_append_tail _ hnu,
+    camelSplit2_append_tail _ hnu (by intro x hx; simp only [List.head?_cons, Option.some.injEq] at hx; subst hx; decide),
+    nonId_append, nonId_of_idChar hidc]
+  generalize nonIdToUnderscore (camelSplit2 false (camelSplit1 none (dropBraces id))) = A
+  have e1 : A ++ '_' :: d :: ds' = (A ++ ['_']) ++ d :: ds' := by simp
+  rw [e1, collapse_append_of_head_ne d ds' hdne, collapse_of_no_us _ hnus]
+  generalize collapseUnderscores (A ++ ['_']) = P
+  unfold stripC
+  rw [lstripC_append_of_head '_' (d :: ds') (by simpa using hdne)]
+  rw [rstripC_id_of_last]
+  · rw [List.map_append, mapLower_id hlow]
+  · rw [List.getLast?_append, List.getLast?_eq_some_getLast (List.cons_ne_nil d ds'), Option.some_or]
+    intro h
+    have hm := hd _ (List.getLast_mem (List.cons_ne_nil d ds'))
+    rw [Option.some.inj h] at hm
+    revert hm; decide
+
+theorem sanMethod_eq_methodCore_eq {a b : Str} (h : sanMethod a = sanMethod b) : methodCore a = methodCore b := by
+  have := congrArg methodCore h
+  rwa [sanMethod_eq a, sanMethod_eq b, methodCore_methodPost (methodCore_clean a),
+    methodCore_methodPost (methodCore_clean b)] at this
+
+/-- Two different suffixes never give the same method name: `sanitize_method_name(f"{id}_{i}")` determines `i`. -/
+theorem sufMethod_inj (id : Str) (i j : Nat) (h : sufMethod id i = sufMethod id j) : i = j := by
+  unfold sufMethod sufId at h
+  have h' := sanMethod_eq_methodCore_eq h
+  obtain ⟨q, hq⟩ := methodCore_suffixed id
+  rw [hq _ (natStr_ne_nil i) (List.all_eq_true.2 (natStr_digits i)),
+    hq _ (natStr_ne_nil j) (List.all_eq_true.2 (natStr_digits j))] at h'
+  exact natStr_inj (List.append_cancel_left h')
+
+/-! ### Operation ids: the pass -/
+
+theorem countOf_none_iff (seen : List (Str × Nat)) (k : Str) : countOf seen k = none ↔ k ∉ seenKeys seen := by
+  induction seen with
+  | nil => simp [countOf, seenKeys]
+  | cons p ps ih =>
+    obtain ⟨k', n⟩ := p
+    simp only [countOf, seenKeys, List.map_cons, List.mem_cons, not_or] at ih ⊢
+    split
+    · rename_i heq
+      have : k' = k := by simpa using heq
+      simp [this]
+    · rename_i heq
+      have : k' ≠ k := by simpa using heq
+      rw [ih]
+      exact ⟨fun h => ⟨fun e => this e.symm, h⟩, fun h => h.2⟩
+
+theorem seenKeys_setCount (seen : List (Str × Nat)) (k : Str) (v : Nat) :
+    seenKeys (setCount seen k v) = seenKeys seen := by
+  induction seen with
+  | nil => rfl
+  | cons p ps ih =>
+    obtain ⟨k', n⟩ := p
+    simp only [setCount, seenKeys, List.map_cons] at ih ⊢
+    split <;> simp [ih]
+
+theorem seenKeys_append (a b : List (Str × Nat)) : seenKeys (a ++ b) = seenKeys a ++ seenKeys b := by
+  simp [seenKeys]
+
+theorem seenKeys_length (seen : List (Str × Nat)) : (seenKeys seen).length = seen.length := by
+  simp [seenKeys]
+
+/-- The `while` loop of the pass ends within `|seen_methods| + 1` iterations, on a method name that is not taken. -/
+theorem dedup_search_ends (seen : List (Str × Nat)) (id : Str) (start : Nat) :
+    ∃ k, findFresh (sufMethod id) (seenKeys seen) start (seen.length + 1) = some k ∧
+      sufMethod id k ∉ seenKeys seen := by
+  apply findFresh_spec (sufMethod id) (sufMethod_inj id) (seenKeys seen) (seen.length + 1) start (seenKeys seen)
+    (fun _ _ => Iff.rfl)
+  rw [seenKeys_length]; exact Nat.lt_succ_self _
+
+/-- The pass on every input and from every state of `seen_methods`: it ends (`some`), changes no length, every output id is the
+    input id or the input id with a numeric suffix, and the METHOD NAMES of the output are pairwise different and different from
+    every name already taken. -/
+theorem dedupOpIds?_spec (ids : List Str) :
+    ∀ seen, ∃ out, dedupOpIds? seen ids = some out ∧ out.length = ids.length ∧
+      (out.map sanMethod).Nodup ∧ (∀ x ∈ out, sanMethod x ∉ seenKeys seen) ∧
+      (∀ p ∈ ids.zip out, p.2 = p.1 ∨ ∃ n, p.2 = sufId p.1 n) := by
+  induction ids with
+  | nil => intro seen; exact ⟨[], rfl, rfl, List.nodup_nil, by simp, by simp⟩
+  | cons id rest ih =>
+    intro seen
+    cases hc : countOf seen (sanMethod id) with
+    | none =>
+      obtain ⟨out, ho, hlen, hnd, hfresh, hsh⟩ := ih (seen ++ [(sanMethod id, 1)])
+      have hnot : sanMethod id ∉ seenKeys seen := (countOf_none_iff _ _).1 hc
+      refine ⟨id :: out, ?_, by simp [hlen], ?_, ?_, ?_⟩
+      rotate_right
+      · intro p hp
+        rcases List.mem_cons.1 (by simpa using hp) with rfl | hp
+        · exact Or.inl rfl
+        · exact hsh p hp
+      · simp only [dedupOpIds?, hc, ho]
+      · rw [List.map_cons, List.nodup_cons]
+        refine ⟨fun hm => ?_, hnd⟩
+        obtain ⟨x, hx, hxe⟩ := List.mem_map.1 hm
+        apply hfresh x hx
+        rw [seenKeys_append, hxe]
+        simp [seenKeys]
+      · intro x hx
+        rcases List.mem_cons.1 hx with rfl | hx
+        · exact hnot
+        · intro hm
+          apply hfresh x hx
+          rw [seenKeys_append]
+          exact List.mem_append_left _ hm
+    | some n =>
+      obtain ⟨k, hk, hknot⟩ := dedup_search_ends seen id (n + 1)
+      obtain ⟨out, ho, hlen, hnd, hfresh, hsh⟩ :=
+        ih (setCount seen (sanMethod id) k ++ [(sufMethod id k, 1)])
+      refine ⟨sufId id k :: out, ?_, by simp [hlen], ?_, ?_, ?_⟩
+      rotate_right
+      · intro p hp
+        rcases List.mem_cons.1 (by simpa using hp) with rfl | hp
+        · exact Or.inr ⟨k, rfl⟩
+        · exact hsh p hp
+      · simp only [dedupOpIds?, hc, hk, ho]
+      · rw [List.map_cons, List.nodup_cons]
+        refine ⟨fun hm => ?_, hnd⟩
+        obtain ⟨x, hx, hxe⟩ := List.mem_map.1 hm
+        apply hfresh x hx
+        rw [seenKeys_append, seenKeys_setCount, hxe]
+        simp [seenKeys, sufMethod]
+      · intro x hx
+        rcases List.mem_cons.1 hx with rfl | hx
+        · exact hknot
+        · intro hm
+          apply hfresh x hx
+          rw [seenKeys_append, seenKeys_setCount]
+          exact List.mem_append_left _ hm
+
+theorem dedupOpIds?_isSome (seen : List (Str × Nat)) (ids : List Str) : (dedupOpIds? seen ids).isSome = true := by
+  obtain ⟨out, h, _⟩ := dedupOpIds?_spec ids seen
+  rw [h]; rfl
+
+theorem dedupOpIds?_eq_some (seen : List (Str × Nat)) (ids : List Str) :
+    dedupOpIds? seen ids = some (dedupOpIds seen ids) := by
+  obtain ⟨out, h, _⟩ := dedupOpIds?_spec ids seen
+  rw [dedupOpIds, h]; rfl
+
+theorem dedupOpIds_spec (seen : List (Str × Nat)) (ids : List Str) :
+    (dedupOpIds seen ids).length = ids.length ∧ ((dedupOpIds seen ids).map sanMethod).Nodup ∧
+      (∀ x ∈ dedupOpIds seen ids, sanMethod x ∉ seenKeys seen) ∧
+      (∀ p ∈ ids.zip (dedupOpIds seen ids), p.2 = p.1 ∨ ∃ n, p.2 = sufId p.1 n) := by
+  obtain ⟨out, h, h1, h2, h3, h4⟩ := dedupOpIds?_spec ids seen
+  have : dedupOpIds seen ids = out := by rw [dedupOpIds, h]; rfl
+  rw [this]; exact ⟨h1, h2, h3, h4⟩
+
+/-- The method names after the pass are pairwise different - every input. -/
+theorem methodNames_nodup (ids : List Str) : (methodNames ids).Nodup := (dedupOpIds_spec [] ids).2.1
 
 theorem countOf_append_none (seen : List (Str × Nat)) (m k : Str) (n : Nat)
     (h : countOf seen k = none) (hne : m ≠ k) : countOf (seen ++ [(m, n)]) k = none := by
@@ -150,26 +462,32 @@ theorem countOf_append_none (seen : List (Str × Nat)) (m k : Str) (n : Nat)
     · rename_i heq; simp [heq] at h
     · rename_i heq; simp only [heq] at h; exact ih h
 
-theorem dedupOpIds_id (ids : List Str) :
+theorem dedupOpIds?_id (ids : List Str) :
     ∀ seen, (∀ id ∈ ids, countOf seen (sanMethod id) = none) → (ids.map sanMethod).Nodup →
-      dedupOpIds seen ids = ids := by
+      dedupOpIds? seen ids = some ids := by
   induction ids with
   | nil => intro _ _ _; rfl
   | cons id rest ih =>
     intro seen hc hnd
     rw [List.map_cons, List.nodup_cons] at hnd
     have h0 := hc id (by simp)
-    simp only [dedupOpIds, h0]
-    congr 1
-    apply ih _ _ hnd.2
-    intro id' hid'
-    apply countOf_append_none _ _ _ _ (hc id' (List.mem_cons_of_mem _ hid'))
-    intro heq
-    exact hnd.1 (heq ▸ List.mem_map_of_mem hid')
+    have : dedupOpIds? (seen ++ [(sanMethod id, 1)]) rest = some rest := by
+      apply ih _ _ hnd.2
+      intro id' hid'
+      apply countOf_append_none _ _ _ _ (hc id' (List.mem_cons_of_mem _ hid'))
+      intro heq
+      exact hnd.1 (heq ▸ List.mem_map_of_mem hid')
+    simp only [dedupOpIds?, h0, this]
 
 theorem dedupOpIds_of_nodup (ids : List Str) (h : (ids.map sanMethod).Nodup) :
     dedupOpIds [] ids = ids ∧ (methodNames ids).Nodup := by
-  have := dedupOpIds_id ids [] (fun _ _ => rfl) h
-  exact ⟨this, by rw [methodNames, this]; exact h⟩
+  have := dedupOpIds?_id ids [] (fun _ _ => rfl) h
+  have e : dedupOpIds [] ids = ids := by rw [dedupOpIds, this]; rfl
+  exact ⟨e, by rw [methodNames, e]; exact h⟩
+
+/-- The pass is idempotent: a second run over its own output (what a second `emit` over the same operation objects does)
+    changes nothing - every input. -/
+theorem dedupOpIds_idempotent (ids : List Str) : dedupOpIds [] (dedupOpIds [] ids) = dedupOpIds [] ids :=
+  (dedupOpIds_of_nodup _ (dedupOpIds_spec [] ids).2.1).1
 
 end Pog
